@@ -285,6 +285,51 @@ func (e *Encoder) stdlibCall(callee *ssa.Function, cm *ssa.CallCommon, args []Va
 			return Val{T: resT}, true
 		}
 		return Val{}, false
+	case n == "io.ReadFull" && len(args) == 2:
+		// io.ReadFull(r, buf) (trusted library contract): only buf's elements change; 0 <= n <= len(buf);
+		// err == nil exactly when n == len(buf). The reader's own state is the heap of an interface value: havoc.
+		if _, ok := args[1].T.Underlying().(*types.Slice); !ok {
+			return Val{}, false
+		}
+		use()
+		// effects: the bytes of buf, and the object behind the reader (a connection, a buffer...)
+		if _, isIface := args[0].T.Underlying().(*types.Interface); isIface {
+			c.declareFun("unbox_Loc", []string{"Iface"}, "Loc")
+			if err := e.havocElems(st, args[1], u8); err != nil {
+				e.havocAll(st, "io.ReadFull (drives an io.Reader)")
+			} else {
+				// the reader's object is none of this function's own variable cells (captured or local)
+				rr := fmt.Sprintf("(rootof (unbox_Loc %s))", args[0].S)
+				for _, fv := range e.fn.FreeVars {
+					if _, ok := fv.Type().Underlying().(*types.Pointer); ok {
+						c.assume(implies(pc, fmt.Sprintf("(not (= %s (rootof %s)))", rr, e.val(fv).S)))
+					}
+				}
+				var allocs []string
+				for v, x := range e.vals {
+					if _, ok := v.(*ssa.Alloc); ok {
+						allocs = append(allocs, x.S)
+					}
+				}
+				sortStrings(allocs) // (deterministic script)
+				for _, a := range allocs {
+					c.assume(implies(pc, fmt.Sprintf("(not (= %s (rootof %s)))", rr, a)))
+				}
+				e.havocObject(st, rr)
+				e.note("io.ReadFull: havocs the destination bytes and the reader's own object (assumes the reader keeps no reference to other memory of this function)")
+			}
+		} else {
+			e.havocAll(st, "io.ReadFull (drives an io.Reader)")
+		}
+		v := e.freshVal("readfull", resT)
+		e.assumeWT(v, pc, st)
+		if len(v.Tuple) == 2 {
+			nn, er := v.Tuple[0].S, v.Tuple[1].S
+			ln := fmt.Sprintf("(slen %s)", args[1].S)
+			c.assume(implies(pc, and(c.cmp("<=", intT, c.idxLit(0), nn), c.cmp("<=", intT, nn, ln))))
+			c.assume(implies(pc, fmt.Sprintf("(= (= %s iface_nil) (= %s %s))", er, nn, ln)))
+		}
+		return v, true
 	case n == "strings.HasPrefix":
 		use()
 		c.declareFun("str_prefix", []string{"Str", "Str"}, "Bool")
